@@ -35,8 +35,19 @@ def _cfg(group):
     return C07_full.field_cfg("bls12_381", group, "opt")
 
 
-def _dec_outcome(f, arg, group):
-    """('ok', model point | None) | ('reject',) | ('raise-other', type) | ('malformed', ..)"""
+def _dec_outcome(f, arg, group, twice=True):
+    """('ok', model point | None) | ('reject',) | ('raise-other', type) | ('malformed', ..);
+    every decoder call is made twice in a row on the same input: the second answer must be the
+    first (a decoder that remembers its last input must not answer from a failed attempt)"""
+    first = _dec_outcome1(f, arg, group)
+    if twice:
+        second = _dec_outcome1(f, arg, group)
+        if second != first:
+            return ("second-call-differs", [first, second])
+    return first
+
+
+def _dec_outcome1(f, arg, group):
     try:
         pt = f(arg)
     except ValueError:
@@ -82,6 +93,9 @@ def _point_domain(group, env, thorough):
             dom.append(("y-at-sign-boundary", Q))
         for Q in zcash.g1_points_with_y(list(range(1, 8)))[:2]:
             dom.append(("small-y", Q))
+            dom.append(("y just below p", E.neg(Q)))
+        for Q in zcash.g1_points_with_y([P - t for t in range(1, 30)])[:2]:
+            dom.append(("y just below p", Q))
         x = 1
         n = 0
         while n < (3 if not thorough else 8):
